@@ -28,4 +28,10 @@ let () =
         let ((n, len), bytes) = StackMap.build l in
         let back = Stdlib.String.concat "" (Stdlib.List.mapi (fun i _ -> if StackMap.bit bytes (nat_of_int i) then "1" else "0") l) in
         Stdlib.Printf.printf "sm\t%d\t%d\t%s\t%s\n" (int_of_nat n) (int_of_nat len) (Conv.hex_of_bytes bytes) (if back = "" then "-" else back)
+    | "fn" :: rest ->
+        (* fn <hex name,hex name,...>  ->  fn <hex of the name table> <offsets> *)
+        let names = match rest with [] | [""] -> [] | [l] -> Stdlib.List.map Conv.bytes_of_hex (Stdlib.String.split_on_char ',' l) | _ -> [] in
+        let (tab, offs) = FuncName.make_funcname_tab names in
+        Stdlib.Printf.printf "fn\t%s\t%s\n" (Conv.hex_of_bytes tab)
+          (Stdlib.String.concat "," (Stdlib.List.map (fun o -> string_of_int (int_of_nat o)) offs))
     | _ -> Stdlib.Printf.printf "bad\t%s\n" line)
